@@ -271,5 +271,16 @@ func parseDuration(s *string, def time.Duration) (time.Duration, error) {
 	}
 
 	// Use the user's value, but validate it per the RFC.
-	return time.ParseDuration(*s)
+	d, err := time.ParseDuration(*s)
+	if err != nil {
+		return 0, err
+	}
+
+	// No lifetime in a router advertisement can be negative or exceed the
+	// 32-bit "infinity" value: either would wrap around on the wire.
+	if d < 0 || d > ndp.Infinity {
+		return 0, fmt.Errorf("duration %s must be between 0 and %s (infinite)", d, ndp.Infinity)
+	}
+
+	return d, nil
 }
